@@ -96,11 +96,13 @@ func (p ReqParams) ToQuery() string {
 
 // DNSScript is the scripted resolver's behaviour for one address.
 type DNSScript struct {
-	Names   []string `json:"names,omitempty"`
-	Err     bool     `json:"err,omitempty"`
-	Timeout bool     `json:"timeout,omitempty"` // with Err: the failure is a *net.DNSError with IsTimeout
-	DelayMs int      `json:"delay_ms,omitempty"`
-	Hang    bool     `json:"hang,omitempty"` // block until the lookup context ends
+	Names    []string `json:"names,omitempty"`
+	Err      bool     `json:"err,omitempty"`
+	Timeout  bool     `json:"timeout,omitempty"`   // with Err: the failure is a *net.DNSError with IsTimeout
+	NotFound bool     `json:"not_found,omitempty"` // with Err: the failure is a *net.DNSError with IsNotFound (NXDOMAIN)
+	Recovers bool     `json:"recovers,omitempty"`  // with Err: only the first lookup fails, later ones answer Names
+	DelayMs  int      `json:"delay_ms,omitempty"`
+	Hang     bool     `json:"hang,omitempty"` // block until the lookup context ends
 }
 
 type Request struct {
